@@ -82,7 +82,7 @@ def random_free(kind, c, rng, n):
     return steps
 
 
-def run_family(prop, tier, plan, free_plan, assumptions):
+def run_family(prop, tier, plan, free_plan, assumptions, mc_extra=()):
     res = vlib.Result(prop, tier)
     rng = random.Random(vlib.seed())
     vh = vlib.build_vh()
@@ -107,6 +107,23 @@ def run_family(prop, tier, plan, free_plan, assumptions):
             for _ in range(count):
                 n += 1
                 sc = {"tr": n, "cfg": mkcfg(kind, c, rng), "steps": random_free(kind, c, rng, length), "free": True}
+                scen[n] = sc
+                f.write(json.dumps(sc) + "\n")
+        # bursts: the producer outruns the trigger goroutine (held at its gate) by more watermark advances than the
+        # watermark channel holds (100); the tail windows must still fire once it is released
+        for kind, c, _count, _length in free_plan[:2]:
+            for _ in range(3):
+                n += 1
+                steps, t = [], 0
+                for i in range(1, rng.choice([130, 160, 220]) + 1):
+                    t += rng.choice([1, 1, 2])
+                    st = {"a": "add", "id": i, "ts": t}
+                    if kind == "session":
+                        st["g"] = "k%d" % (i % 7)
+                    steps.append(st)
+                cfg = mkcfg(kind, dict(c, al=0), rng)
+                cfg["ahead"] = False
+                sc = {"tr": n, "cfg": cfg, "steps": steps, "free": True, "burst": True}
                 scen[n] = sc
                 f.write(json.dumps(sc) + "\n")
     rc, out = vlib.sh([vh, "win", "-scen", sc_path, "-out", tr_path, "-par", "16"], 1500)
@@ -152,6 +169,8 @@ def run_family(prop, tier, plan, free_plan, assumptions):
         mc = dict(c)
         mc.update(c.get("mc", {}))
         model_check(res, kind, mc)
+    for kind, c in mc_extra:      # model-only configurations (e.g. a watermark channel of capacity 1: drop + ticker retry)
+        model_check(res, kind, c)
     return res.finish()
 
 
